@@ -22,7 +22,8 @@ RULE = ("fitted xy / indexed problems x point permutation x parameter permutatio
         "factor != 1 with a correlated source, or a non-identity point permutation with a matrix source; distinct by case hash")
 ASSUMPTIONS = [
     "cost at corresponding points compared at 1e-8 relative (+ cond scaling); fit results at MINIMIZER tolerance (0.05 sigma for values, 5 % for "
-    "uncertainties with iminuit / 2 % scipy, 1e-2 absolute on chi2, 1e-3 on the probability)",
+    "uncertainties with iminuit / 2 % scipy, 1e-2 absolute on chi2, 1e-3 on the probability); covariance entries at twice that, three times more when the "
+    "condition number of the parameter correlation matrix exceeds 1e3, not compared beyond 1e4 (accuracy of numerical second derivatives)",
     "unit-carrying parameters per family: all parameters of the linear families, the amplitude of the nonlinear ones",
     "problems whose total covariance is not positive definite / cond > 1e6 are discarded; fits that do not converge in either variant are "
     "discarded (C05/C06's subject)",
@@ -196,10 +197,19 @@ def run(case):
             raise Violation(f"values[{backend}]", f"{nm}: A {va[i]!r} +- {ea[i]!r}, B {vb[iB[nm]]!r} +- {eb[iB[nm]]!r} (expected factor {f_}); {tag}")
 
     Ca, Cb = np.asarray(Ca, float), np.asarray(Cb, float)
+    # numerical second derivatives (HESSE / numdifftools) lose accuracy with the correlation of the parameters (measured on cubic polynomials:
+    # 3-8 % against the exact GLS covariance at a condition number of 3e4 of the parameter correlation matrix)
+    fidx = [i for i, nm in enumerate(namesA) if nm not in A["fixed"]]
+    dA = np.sqrt(np.abs(np.diag(Ca)))[fidx]
+    with np.errstate(all="ignore"):
+        cond_cor = np.linalg.cond(Ca[np.ix_(fidx, fidx)] / np.outer(dA, dA)) if len(fidx) > 1 and np.all(dA > 0) else 1.0
+    ctol = 2 * etol if cond_cor <= 1e3 else (6 * etol if cond_cor <= 1e4 else None)
     for i, ni in enumerate(namesA):
         for j, nj in enumerate(namesA):
+            if ctol is None:
+                break
             want = Ca[i, j] * factor[ni] * factor[nj]
-            if abs(Cb[iB[ni], iB[nj]] - want) > 2 * etol * ea[i] * ea[j] * factor[ni] * factor[nj] + 1e-300:
+            if abs(Cb[iB[ni], iB[nj]] - want) > ctol * ea[i] * ea[j] * factor[ni] * factor[nj] + 1e-300:
                 raise Violation(f"covariance[{backend}]", f"cov({ni},{nj}): A {Ca[i, j]!r}, B {Cb[iB[ni], iB[nj]]!r} (expected {want!r}); {tag}")
     for i, nm in enumerate(namesA):
         f_ = factor[nm]
